@@ -70,14 +70,16 @@ fn ktype_of<K: TestKey>() -> &'static str {
 /// interleaved and abandoned transactions, in-process reopen, async mode.
 fn build_case<K: TestKey>(p: &Params, id: u64) -> Case<K> {
     let mut rng = Rng::derive(p.seed ^ 0xC3A5, id);
-    let class_id = id % 6;
+    let class_id = id % 7;
     let (class, n_ops, sync): (&'static str, u64, bool) = match class_id {
         0 => ("rollover", *rng.pick(&[1u64, 2, 3]), true),
         1 => ("checkpoint-shared", *rng.pick(&[2u64, 3, 1000]), true),
         2 => ("large-record", *rng.pick(&[2u64, 3, 1000]), true),
         3 => ("transactions", *rng.pick(&[2u64, 3, 5]), true),
         4 => ("reopen", *rng.pick(&[1u64, 2, 3]), true),
-        _ => ("async", *rng.pick(&[2u64, 3]), p.mode == "power"),
+        5 => ("async", *rng.pick(&[2u64, 3]), p.mode == "power"),
+        // more than ten segments: ids 9 and 10 order differently as numbers and as file names
+        _ => ("many-segments", 2, true),
     };
     let len = if p.thorough { rng.range(8, 16) } else { rng.range(6, 10) } as usize;
     let mut gc = GenCfg {
@@ -116,6 +118,23 @@ fn build_case<K: TestKey>(p: &Params, id: u64) -> Case<K> {
         ops.push(Op::Remove { key: long });
         for op in &ops {
             mr.step(op);
+        }
+    } else if class == "many-segments" {
+        // 23-25 logged operations over two keys with two operations per segment: the log walks
+        // through segments 0..=11, every operation overwrites or removes what the previous
+        // not-yet-checkpointed one on that key wrote
+        let n = 23 + rng.usize(3);
+        for i in 0..n {
+            // mostly one key, so that consecutive records (in particular the last one of segment
+            // 9 and the first one of segment 10) overwrite each other's value
+            let key = g.keys[usize::from(i % 4 == 2)].clone();
+            let op = if i % 7 == 3 && mr.model.map.contains_key(&key) {
+                Op::Remove { key }
+            } else {
+                Op::Put { key, content: Content::new(200 + i as u32, 12 + i), chunks: vec![] }
+            };
+            mr.step(&op);
+            ops.push(op);
         }
     } else {
         while ops.len() < len {
@@ -376,8 +395,11 @@ fn check_scan(d: &RecoverDump, se: &ScanExpect, out: &mut Vec<Finding>, site: &s
     let set = |v: &Vec<String>| v.iter().cloned().collect::<BTreeSet<String>>();
     let cmp = |name: &str, got: BTreeSet<String>, want: &BTreeSet<String>, out: &mut Vec<Finding>| {
         if got != *want {
+            // a staging file of a transaction that died with the process and is not even reported
+            // is also "a trace of an abandoned transaction" (C13)
+            let props: &[&'static str] = if name == "staging files" { &["C08", "C13"] } else { &["C08"] };
             out.push(Finding::new(
-                &["C08"],
+                props,
                 &format!("start-up scan reports wrong {name}"),
                 site,
                 format!(
@@ -695,7 +717,7 @@ fn judge_image<K: TestKey>(
     }
     let st_left = fsx::files_rec(&root.join("staging"));
     if !st_left.is_empty() {
-        out.push(Finding::new(&["C08"], "staging/ not empty after clean-up", site, format!("{st_left:?}")));
+        out.push(Finding::new(&["C08", "C13"], "staging/ not empty after clean-up", site, format!("{st_left:?}")));
     }
     out
 }
@@ -1217,9 +1239,17 @@ fn fail_job<K: TestKey>(p: &Params, case: &Case<K>, tr: &TraceRun, k: u64, errno
     std::fs::write(&script, enc_script(&case.ops)).unwrap();
     let ack = dirs.file("ack");
     let root = dirs.root();
+    let snap_dir = dirs.file("snaps");
+    let mut driver_args = run_args(case, &root, &script, &ack, true);
+    driver_args.extend([
+        "--snap-dir".to_string(),
+        snap_dir.display().to_string(),
+        "--snap-limit".to_string(),
+        (if p.thorough { 12 } else { 3 }).to_string(),
+    ]);
     let r = run_driver(
         &p.tools,
-        &run_args(case, &root, &script, &ack, true),
+        &driver_args,
         &ShimEnv { root: Some(root.clone()), fail_at: Some(k), errno: Some(errno), ..Default::default() },
         WATCHDOG,
     );
@@ -1272,6 +1302,7 @@ fn fail_job<K: TestKey>(p: &Params, case: &Case<K>, tr: &TraceRun, k: u64, errno
     let mut failed_keys: BTreeSet<Vec<u8>> = BTreeSet::new();
     let mut failures = 0u64;
     let mut hit_op: Option<usize> = None;
+    let mut knowledge_at: BTreeMap<usize, (Fuzzy<K>, BTreeSet<Vec<u8>>)> = BTreeMap::new();
     for (i, op) in case.ops.iter().enumerate() {
         let Some(a) = ackinfo.ops.get(&i) else { break };
         let Some((end_c, res)) = &a.end else {
@@ -1350,6 +1381,7 @@ fn fail_job<K: TestKey>(p: &Params, case: &Case<K>, tr: &TraceRun, k: u64, errno
         if let Some(o) = ackinfo.observes.get(&(i as i64)) {
             fz.check(o, &site, &failed_keys, "in the same session", &mut findings);
         }
+        knowledge_at.insert(i, (fz.clone(), failed_keys.clone()));
         if !findings.is_empty() {
             break;
         }
@@ -1365,8 +1397,41 @@ fn fail_job<K: TestKey>(p: &Params, case: &Case<K>, tr: &TraceRun, k: u64, errno
         rep.count("runs_where_fault_was_absorbed", 1);
     }
     let _ = hit_op;
+    // whatever failed, the files must stay well-formed (C20): complete checksummed records,
+    // increasing versions in their segments' ranges, every version that was in the log after a
+    // SUCCESSFUL operation still present unless the snapshot covers it
+    {
+        let mut ok_versions: BTreeSet<u64> = BTreeSet::new();
+        for (i, a) in &ackinfo.ops {
+            if let Some((_, Ok(_))) = &a.end
+                && let Some(v) = ackinfo.versions.get(i)
+            {
+                ok_versions.extend(v.iter().copied());
+            }
+        }
+        match disk::decode_db(&root, case.n_ops) {
+            Err(e) => findings.push(Finding::new(
+                &["C20", "C14"],
+                "on-disk files are malformed after a failed I/O call",
+                &site,
+                e,
+            )),
+            Ok(st) => {
+                let missing = st.missing_acked(&ok_versions);
+                if !missing.is_empty() {
+                    findings.push(Finding::new(
+                        &["C20", "C14"],
+                        "a version logged by a successful operation is in no segment after a failed I/O call",
+                        &site,
+                        format!("missing {missing:?}, snapshot v{}", st.snapshot_version),
+                    ));
+                }
+                rep.count("format_checks_after_fault", 1);
+            }
+        }
+    }
     // clean reopen in a new process
-    if findings.is_empty() {
+    if findings.iter().all(|f| !f.props.contains(&"C14") || f.props.contains(&"C20")) {
         let dump = dirs.file("dump.json");
         let r2 = run_driver(&p.tools, &recover_args(case, &root, &dump, "none", None), &ShimEnv::default(), WATCHDOG);
         if r2.timed_out {
@@ -1406,6 +1471,46 @@ fn fail_job<K: TestKey>(p: &Params, case: &Case<K>, tr: &TraceRun, k: u64, errno
             }
         }
     }
+    // copies of the directory taken at operation boundaries after the failure: each is what a
+    // restart at that moment finds ("this stays true for all later operations and after
+    // reopening"), even if a later operation of the same session heals the files
+    for i in &ackinfo.snaps {
+        let Some((fz_i, failed_i)) = knowledge_at.get(i) else { continue };
+        let snap_root = snap_dir.join(format!("snap-{i}"));
+        let dump = dirs.file("snap-dump.json");
+        let _ = std::fs::remove_file(&dump);
+        let r3 = run_driver(&p.tools, &recover_args(case, &snap_root, &dump, "none", None), &ShimEnv::default(), WATCHDOG);
+        if r3.timed_out {
+            rep.inconclusive.push("snapshot reopen watchdog".into());
+            continue;
+        }
+        let d = parse_dump(&dump);
+        let when = format!("after reopening a copy taken after operation {i} ({})", case.ops[*i].enc().chars().take(40).collect::<String>());
+        if !d.raw_present {
+            if r3.code == Some(101) || r3.signal.is_some() {
+                findings.push(Finding::new(&["C14"], "reopen after a failed I/O call panicked", &site, format!("{when}: {}", r3.stderr.lines().take(4).collect::<Vec<_>>().join(" / "))));
+            }
+        } else if !d.open_ok {
+            let e = d.error.clone().unwrap_or_default();
+            findings.push(Finding::new(
+                &["C14"],
+                &format!("reopen fails after a failed I/O call: {}", classify_open_error(&e)),
+                &site,
+                format!("{when}: {e}"),
+            ));
+        } else if let Some(o) = &d.dump1 {
+            fz_i.check(o, &site, failed_i, "after reopening a copy taken at a later operation boundary", &mut findings);
+            if !d.missing.is_empty() || !d.corrupted.is_empty() {
+                findings.push(Finding::new(
+                    &["C14"],
+                    "reopen after a failed I/O call reports missing or corrupted blobs",
+                    &site,
+                    format!("{when}: missing {:?} corrupted {:?}", d.missing, d.corrupted),
+                ));
+            }
+            rep.count("boundary_copies_reopened", 1);
+        }
+    }
     if rep.samples.len() < 4 && failures > 0 && findings.is_empty() {
         rep.sample(
             J::obj()
@@ -1427,10 +1532,46 @@ fn fail_job<K: TestKey>(p: &Params, case: &Case<K>, tr: &TraceRun, k: u64, errno
 fn build_fail_case<K: TestKey>(p: &Params, id: u64) -> Case<K> {
     let mut c: Case<K> = build_case(p, id);
     let mut rng = Rng::derive(p.seed ^ 0xFA11, id);
-    if c.class == "large-record" || c.class == "reopen" {
+    if c.class == "large-record" {
         return c;
     }
     let spare = K::bulk(777, 8);
+    if c.class == "many-segments" {
+        // every operation is followed by an explicit checkpoint: whatever fails (also inside a
+        // rollover checkpoint), the caller's next step is a checkpoint "retry" with no mutation
+        // in between
+        c.class = "checkpoint-retry";
+        c.n_ops = *rng.pick(&[2u64, 3]);
+        let mut ops = Vec::new();
+        let mut i = 0u32;
+        for _round in 0..2 {
+            // a full segment plus the put that rolls over (its rollover checkpoint may be the
+            // thing that fails), then the explicit checkpoint
+            for _ in 0..=c.n_ops {
+                ops.push(Op::Put { key: K::bulk(i as usize, 6), content: Content::new(600 + i, 20 + i as usize), chunks: vec![] });
+                i += 1;
+            }
+            ops.push(Op::Checkpoint);
+        }
+        c.ops = ops;
+        return c;
+    }
+    if c.class == "reopen" {
+        // a writer opened on a non-empty segment (after an in-process reopen in the middle of a
+        // segment), then more appends in that segment - any of which may be the one that fails
+        c.n_ops = *rng.pick(&[7u64, 1000]); // no rollover inside this history
+        let k = |i: usize| K::bulk(i, 5);
+        c.ops = vec![
+            Op::Put { key: k(0), content: Content::new(700, 21), chunks: vec![] },
+            Op::Put { key: k(1), content: Content::new(701, 22), chunks: vec![] },
+            Op::Reopen { flip_sync: false, pre_create: false },
+            Op::Put { key: k(2), content: Content::new(702, 23), chunks: vec![] },
+            Op::Put { key: k(0), content: Content::new(703, 24), chunks: vec![] },
+            Op::Remove { key: k(1) },
+            Op::Put { key: k(1), content: Content::new(704, 25), chunks: vec![] },
+        ];
+        return c;
+    }
     if c.class == "async" {
         // dedicated shape: the content of a (possibly failing) put is stored under another key
         // and removed again, with no later checkpoint or write to hide what the log then says
